@@ -139,6 +139,8 @@ TAB_DESC = {
     "T13": "T13 substrate vertex tables: pentagon = first five of hexagon, closed ccw rings",
     "T14": "T14 PENTAGON_ROTATIONS_REVERSE undoes PENTAGON_ROTATIONS",
     "T16": "T16 paired scalar constants mutually consistent",
+    "T17": "T17 MAX_EDGE_LENGTH_RADS[r] >= average edge length, decreasing",
+    "T18": "T18 pole-cell tables hold valid cells of the right resolution",
 }
 
 
@@ -210,6 +212,13 @@ def part_idx(ctx):
                         "(quick tier: the %d anchor functions; thorough: all). " % len(rules_idx.QUICK_FUNCS))
 
 
+def part_sib(ctx):
+    from . import rules_sib
+    rules_sib.check(ctx, module("release", "ssa"), "release")
+    ctx.explanation += ("R-SIB: every call that receives a hole of the polygon together with a bounding box uses bboxes[hole index + 1], "
+                        "the convention of the writer bboxesFromGeoPolygon (sibling cross-check). ")
+
+
 def part_fmt(ctx):
     from . import rules_fmt
     n = rules_fmt.check(ctx, module("release", "ssa"), "release")
@@ -239,7 +248,7 @@ PARTS = {
     "C10": [part_guards("C10"), part_tables(["T8", "T12"]), part_cform("C10"), part_wit("C10")],
     "C11": [part_guards("C11"), part_tables(["T8", "T12", "T7"], {"T7": ["pentagonDirectionFaces"]}), part_wit("C11")],
     "C12": [part_guards("C12"), part_ret, part_errdisc, part_ovf, part_idx, part_bw(None), part_cform("C12"), part_wit("C12")],
-    "C13": [part_guards("C13"), part_cform("C13"), part_wit("C13")], "C14": [part_guards("C14"), part_bw("C14"), part_cform("C14")], "C15": [part_guards("C15"), part_bw("C15"), part_wit("C15")],
+    "C13": [part_guards("C13"), part_cform("C13"), part_wit("C13")], "C14": [part_guards("C14"), part_bw("C14"), part_cform("C14")], "C15": [part_guards("C15"), part_bw("C15"), part_sib, part_tables(["T17", "T18"]), part_wit("C15")],
     "C19": [part_tables(["T5", "T9"]), part_bw("C19"), part_cform("C19"), part_wit("C19")],
     "C20": [part_guards("C20"), part_fmt, part_wit("C20")],
 }
